@@ -7,4 +7,8 @@ RRepeats == {33}
 RFactors == {<<2, 1>>}
 ROps == {"Add", "Merge", "Clear"}
 RInit == (1 :> NewStore("high", 3)) @@ (2 :> NewStore("exact", 0))
+RSlotKeys == (1 :> {0, 2, 4}) @@ (2 :> {0, 2, 4})
+RAsc == {}
+RDesc == {}
+RPairs == {}
 ====
